@@ -115,7 +115,7 @@ def parse_trace(text):
             cur = int(m.group(1))
             marks[cur] = int(m.group(2))
             calls.setdefault(cur, [])
-        elif ln.startswith(("RECV ", "SEND ", "DTOR ")):
+        elif ln.startswith(("RECV ", "SEND ", "DTOR ", "FREE ")):
             parts = ln.split(" ")
             kv = {}
             for x in parts[2:]:
